@@ -50,6 +50,13 @@ void Graph::add_edges_from_targets_with_no_separators(
     // Collect detectors and observables.
     for (const auto &t : targets) {
         if (t.is_relative_detector_id()) {
+            // A detector listed twice is flipped twice: the two occurrences cancel.
+            uint64_t *repeated = detectors.find(t.raw_id());
+            if (repeated != detectors.end()) {
+                *repeated = detectors.back();
+                detectors.pop_back();
+                continue;
+            }
             if (detectors.size() == 2) {
                 if (ignore_ungraphlike_errors) {
                     return;
